@@ -234,7 +234,11 @@ pub fn run_check(spec: &CheckSpec, tier: &str, seed: u64) -> i32 {
     let mut per_part = vec![];
     let mut skipped_total = 0;
     for part in &spec.parts {
-        let n = if quick { part.runs_quick } else { part.runs_thorough };
+        let mut n = if quick { part.runs_quick } else { part.runs_thorough };
+        // the hook-off twin repeats the enumerated parts in full and a third of the sampled ones
+        if std::env::var("VERIF_TWIN").is_ok() && matches!(part.profile, "wire" | "lifecycle" | "lifecycle-full" | "aux" | "keygen" | "purity" | "handover") {
+            n = (n / 3).max(1);
+        }
         if n == 0 {
             continue;
         }
